@@ -1011,21 +1011,27 @@ where
             lc
         })
         .collect();
-    sorted_lcs.sort_by(|a, b| {
-        if let Some(b_resume_lc) = &b.resume_lc {
-            if b_resume_lc.id == a.id {
-                // b is a resume of a so a must be earlier
-                return std::cmp::Ordering::Less;
+    // Sort by start time but never place a resume lifecycle before the lifecycle it resumes.
+    // Comparing by start_time with an exception for (resumed, resume) pairs is not a total order
+    // (the start estimate of a resume lifecycle can move before the one of the resumed lifecycle)
+    // so we derive a sort key: a resume lifecycle gets a key later than the one of the lifecycle
+    // it resumes. The resumed lifecycle was created earlier, i.e. has the smaller id.
+    let mut lcs_by_id = sorted_lcs.clone();
+    lcs_by_id.sort_by_key(|lc| lc.id);
+    let mut sort_keys: std::collections::HashMap<LifecycleId, u64> =
+        std::collections::HashMap::with_capacity(lcs_by_id.len());
+    for lc in lcs_by_id {
+        let mut key = lc.start_time;
+        if let Some(resume_lc) = &lc.resume_lc {
+            if let Some(resumed_key) = sort_keys.get(&resume_lc.id) {
+                if key <= *resumed_key {
+                    key = resumed_key.saturating_add(1);
+                }
             }
         }
-        if let Some(a_resume_lc) = &a.resume_lc {
-            if a_resume_lc.id == b.id {
-                // a is a resume of b so b must be earlier
-                return std::cmp::Ordering::Greater;
-            }
-        }
-        a.start_time.cmp(&b.start_time)
-    });
+        sort_keys.insert(lc.id, key);
+    }
+    sorted_lcs.sort_by_key(|lc| (sort_keys[&lc.id], lc.id));
     sorted_lcs
 }
 
